@@ -23,6 +23,11 @@ class ToolError(Exception):
     pass
 
 
+class CodeCrash(Exception):
+    """the code under test aborted the harness process (stack overflow, abort): reported as a violation"""
+    pass
+
+
 def log(*a):
     print("[check]", *a, file=sys.stderr, flush=True)
 
@@ -87,6 +92,10 @@ def run_harness(binary, args, timeout=3600, env_extra=None):
                            timeout=timeout, env=env, cwd=VERIF)
     except subprocess.TimeoutExpired:
         raise ToolError("harness timed out: " + " ".join(args))
+    if p.returncode < 0 or p.returncode in (134, 139):
+        # killed by a signal (abort / stack overflow) while executing code under test: that is data, not tool trouble
+        raise CodeCrash("harness %s killed by signal %d while running the code under test\n%s" %
+                        (" ".join(args), p.returncode, (p.stderr or "")[-1500:]))
     if p.returncode != 0:
         raise ToolError("harness failed (%d): %s\n%s" % (p.returncode, " ".join(args), (p.stderr or "")[-2000:]))
     log("harness %s: %.1fs %s" % (args[0], time.time() - t0, (p.stderr or "").strip().splitlines()[-1:] ))
@@ -181,7 +190,7 @@ def _tlc_trace_one(module, cfg, shard_path, idx, xmx, timeout):
     shutil.rmtree(meta, ignore_errors=True)
     os.makedirs(meta, exist_ok=True)
     env = dict(os.environ)
-    env["JAVA_TOOL_OPTIONS"] = "-Xss1g -Xmx%s -Dtlc2.tool.queue.IStateQueue=StateDeque" % xmx
+    env["JAVA_TOOL_OPTIONS"] = "-Xss512m -Xms256m -Xmx%s -XX:ParallelGCThreads=1 -XX:CICompilerCount=2 -Dtlc2.tool.queue.IStateQueue=StateDeque" % xmx
     env["TRACE"] = shard_path
     cmd = ["timeout", str(timeout)] + _tlc_cmd() + ["-workers", "1", "-metadir", meta, "-cleanup", "-noGenerateSpecTE",
                                                     "-config", cfg, module + ".tla"]
@@ -190,7 +199,7 @@ def _tlc_trace_one(module, cfg, shard_path, idx, xmx, timeout):
     return p
 
 
-def tlc_trace(module, trace_path, shards=12, xmx="3g", timeout=1800, cfg=None, min_per_shard=40):
+def tlc_trace(module, trace_path, shards=12, xmx="3g", timeout=1800, cfg=None, min_per_shard=40, boundary=None):
     """Validate an ndjson trace with spec/<module>.tla (non-blocking acceptance). Returns
     dict(records, consumed(bool), tuples=[(global_line, tuple)], states, transitions)."""
     cfg = cfg or (module + ".cfg")
@@ -203,15 +212,24 @@ def tlc_trace(module, trace_path, shards=12, xmx="3g", timeout=1800, cfg=None, m
     os.makedirs(WORK, exist_ok=True)
     paths, offsets = [], []
     per = (n + k - 1) // k
-    for i in range(k):
-        chunk = lines[i * per:(i + 1) * per]
+    # shard starts: multiples of `per`, moved forward to the next line at which a shard may start
+    starts = [0]
+    for i in range(1, k):
+        j = max(i * per, starts[-1] + 1)
+        while j < n and boundary is not None and not boundary(lines[j]):
+            j += 1
+        if j < n and j > starts[-1]:
+            starts.append(j)
+    starts.append(n)
+    for i in range(len(starts) - 1):
+        chunk = lines[starts[i]:starts[i + 1]]
         if not chunk:
             continue
         sp = os.path.join(WORK, "shard_%s_%d_%d.ndjson" % (module, os.getpid(), i))
         with open(sp, "w") as f:
             f.writelines(chunk)
         paths.append(sp)
-        offsets.append(i * per)
+        offsets.append(starts[i])
     t0 = time.time()
     with ThreadPoolExecutor(max_workers=len(paths)) as ex:
         procs = list(ex.map(lambda a: _tlc_trace_one(module, cfg, a[1], a[0], xmx, timeout), enumerate(paths)))
@@ -244,9 +262,11 @@ def tlc_trace(module, trace_path, shards=12, xmx="3g", timeout=1800, cfg=None, m
         except OSError:
             pass
     log("TLC trace %s: %d records in %d shards, %.1fs, consumed=%s" % (module, n, len(paths), wall, consumed))
-    if not consumed:
+    if not consumed and not any(t[0] == "MISMATCH" for (_, t) in tuples):
         raise ToolError("trace validation of %s did not consume the whole trace (TLC error / timeout)" % trace_path)
-    return {"records": n, "lines": lines, "tuples": tuples, "states": states, "transitions": trans, "wall_s": round(wall, 1)}
+    # (a MISMATCH printed before a later TLC evaluation error is still a sound verdict on the record it names)
+    return {"records": n, "lines": lines, "tuples": tuples, "states": states, "transitions": trans, "wall_s": round(wall, 1),
+            "consumed": consumed}
 
 
 # ---------------------------------------------------------------- known findings
